@@ -152,7 +152,7 @@ def run(ctx: Ctx, rep: Report) -> None:
                     feasible = True
                     for test, pol in path:
                         try:
-                            val = bool(int_eval(defs.expand(test), atom))
+                            val = bool(int_eval(defs.expand(test, stop=[list_name]), atom))
                         except Unevaluable:
                             continue  # unknown guard: may hold
                         if val != pol:
@@ -251,7 +251,8 @@ def check_table(ctx: Ctx, rep: Report, err_base: ClassInfo, construct_fn: FuncIn
     table_ok = False
     table_name = None
     for name, vals in defs.assigns.items():
-        for val, _ in vals:
+        for val0, _ in vals:
+            val = defs.single(name) if len(vals) == 1 else val0
             if isinstance(val, ast.DictComp) and len(val.generators) == 1:
                 gen = val.generators[0]
                 it = gen.iter
